@@ -38,7 +38,7 @@ pub fn tier(name: &str) -> Tier {
         Tier {
             miri: MiriCfg { seeds: 48, calls: 80, threads: 3, timeout_s: 1500 },
             name: "thorough",
-            sizes: PoolSizes { gen_per_ev: 4000, cross_texts: 1200, malformed_per_ev: 600, extreme_per_ev: 500, max_corpus: 2000 },
+            sizes: PoolSizes { gen_per_ev: 4000, cross_texts: 1200, malformed_per_ev: 600, extreme_per_ev: 500, sibling_families_per_ev: 300, pair_samples_per_ev: 0, all_pairs: true, max_corpus: 2000 },
             recheck_every: 1,
             det_seeds: 5000,
             short_runs: 2_000_000,
@@ -52,7 +52,7 @@ pub fn tier(name: &str) -> Tier {
         Tier {
             miri: MiriCfg { seeds: 4, calls: 30, threads: 3, timeout_s: 150 },
             name: "quick",
-            sizes: PoolSizes { gen_per_ev: 600, cross_texts: 110, malformed_per_ev: 60, extreme_per_ev: 80, max_corpus: 300 },
+            sizes: PoolSizes { gen_per_ev: 600, cross_texts: 110, malformed_per_ev: 60, extreme_per_ev: 100, sibling_families_per_ev: 40, pair_samples_per_ev: 120, all_pairs: false, max_corpus: 300 },
             recheck_every: 7,
             det_seeds: 200,
             short_runs: 40_000,
@@ -655,10 +655,11 @@ pub fn check(o: &CheckOpts) -> i32 {
     let audit = seam_audit(&o.repo);
 
     // ---- pool and oracle
-    let cand = gen::build_pool(o.seed, &o.repo, &t.sizes);
+    let hints = change_hints(&o.repo, &o.verif);
+    let focus = if hints.files.is_empty() { None } else { Some(gen::PoolFocus { evs: hints.evs.clone(), tokens: hints.tokens.clone() }) };
+    let cand = gen::build_pool(o.seed, &o.repo, &t.sizes, focus.as_ref());
     let (mut pool, ost): (Pool, OracleStats) = oracle::oracle_pass(cand, w, t.recheck_every);
     let mut ix = workload::index_pool(&mut pool);
-    let hints = change_hints(&o.repo, &o.verif);
     if !hints.files.is_empty() {
         ix.hint_evs = hints.evs.clone();
         for (bi, (ev, tok, _)) in ix.fn_buckets.iter().enumerate() {
@@ -1139,7 +1140,7 @@ pub fn replay(path: &str, workers: usize) -> i32 {
 /// Harness self-test (not a registered check): large determinism sample + record/replay equivalence.
 pub fn selftest(o: &CheckOpts, seeds: usize) -> i32 {
     let t = tier("quick");
-    let cand = gen::build_pool(o.seed, &o.repo, &t.sizes);
+    let cand = gen::build_pool(o.seed, &o.repo, &t.sizes, None);
     let (mut pool, _ost) = oracle::oracle_pass(cand, o.workers, 0);
     let ix = workload::index_pool(&mut pool);
     let tmo = Duration::from_millis(3000);
@@ -1212,7 +1213,7 @@ pub fn unused(_: Exit) {}
 /// debugging aid: run one seed of the selftest's short stream `reps` times from this process and print the records
 pub fn debug_seed(o: &CheckOpts, stream: u64, idx: usize, reps: usize, pad: usize) -> i32 {
     let t = tier("quick");
-    let cand = gen::build_pool(o.seed, &o.repo, &t.sizes);
+    let cand = gen::build_pool(o.seed, &o.repo, &t.sizes, None);
     let (mut pool, _ost) = oracle::oracle_pass(cand, o.workers, 0);
     let ix = workload::index_pool(&mut pool);
     // vary the parent's allocation history
